@@ -30,6 +30,8 @@ func runC17(w *World, r *Report) {
 	r.Rule("nopanic", "the width-copy helper cannot index out of range; oversize and negative values take the error return", 2)
 	r.Rule("nomutate", "the builder leaves its value and mask arguments untouched and does not retain them", 2)
 	r.Rule("errprop", "errors of the lookup and of the width check reach the caller; no return is (nil, nil)", 4)
+	r.Rule("maskform", "the window mask helper yields exactly 'length ones starting at bit start' on every path", 1)
+	r.Rule("maskcheck", "a value with a bit outside the mask takes the error return", 1)
 	nb := w.Funcs["openflow13.NewMatchField"]
 	if nb == nil {
 		r.Fail(VViolation, "errprop", "openflow13.NewMatchField", "", "-", "the generic builder openflow13.NewMatchField no longer exists (anchor cannot be resolved)")
@@ -149,6 +151,178 @@ func runC17(w *World, r *Report) {
 			}
 			if !bad {
 				r.OK("nomutate", nb.Key, inst, npos, fmt.Sprintf("%d functions receive a value derived from it; none writes through, stores, sends or returns it", len(a.Visited)), true)
+			}
+		}
+	}
+
+	// ---------------------------------------------------------------- maskform
+	if rm := w.Funcs["openflow13.rangeMask"]; rm == nil {
+		r.Fail(VViolation, "maskform", "openflow13.rangeMask", "", "-", "the window mask helper openflow13.rangeMask no longer exists (anchor cannot be resolved)")
+	} else {
+		pos := w.Pos(rm.Decl.Pos())
+		ctx := newBvCtx()
+		st := ctx.declare("start", 64, false, 0, 1<<20)
+		ln := ctx.declare("length", 64, false, 0, 1<<20)
+		paths := w.RunBV(rm, ctx, nil, []*bvVal{{BV: st}, {BV: ln}})
+		for _, p := range paths {
+			inst := ""
+			if len(p.Conds) > 0 {
+				inst = "path:" + strings.Join(p.Conds, "&&")
+			}
+			if len(p.Undec) > 0 {
+				r.Fail(VUndecided, "maskform", rm.Key, inst, pos, "outside the bit-level language: "+strings.Join(p.Undec, "; "))
+				continue
+			}
+			if infeasible(p.Ctx) {
+				continue
+			}
+			if len(p.Ret) != 1 || p.Ret[0] == nil || p.Ret[0].Big == nil {
+				r.Fail(VUndecided, "maskform", rm.Key, inst, pos, "the helper does not return a big integer the engine can follow")
+				continue
+			}
+			b := p.Ret[0].Big
+			dom := "start, length >= 0"
+			if len(p.Conds) > 0 {
+				dom += " and " + strings.Join(p.Conds, " and ")
+			}
+			switch {
+			case b.Mask != nil && p.Ctx.equal(b.Mask.Lo, ValOf("start")) && p.Ctx.equal(b.Mask.N, ValOf("length")):
+				r.OK("maskform", rm.Key, inst, pos, fmt.Sprintf("on {%s}: %v ones starting at bit %v", dom, b.Mask.N, b.Mask.Lo), true)
+			case b.Mask != nil:
+				r.Fail(VViolation, "maskform", rm.Key, inst, pos, fmt.Sprintf("on {%s} the mask is %v ones starting at bit %v; specified: length ones starting at bit start", dom, b.Mask.N, b.Mask.Lo))
+			default:
+				why := b.Why
+				if why == "" {
+					why = "the result has no closed form 'n ones << lo'"
+				}
+				r.Fail(VViolation, "maskform", rm.Key, inst, pos, fmt.Sprintf("on {%s}: %s", dom, why))
+			}
+		}
+	}
+
+	// ---------------------------------------------------------------- maskcheck
+	// the variables handed to the width-copy helper as mask and as value
+	{
+		var maskObj, valueObj types.Object
+		ast.Inspect(nb.Decl.Body, func(n ast.Node) bool {
+			as, ok := n.(*ast.AssignStmt)
+			if !ok || len(as.Rhs) != 1 {
+				return true
+			}
+			c, ok := unparen(as.Rhs[0]).(*ast.CallExpr)
+			if !ok || len(c.Args) < 1 {
+				return true
+			}
+			fnc, _ := typeutil.Callee(info, c).(*types.Func)
+			if fnc == nil {
+				return true
+			}
+			fi := w.FuncOf(fnc)
+			if fi == nil || !helpers[fi] {
+				return true
+			}
+			o := identObj(info, c.Args[0])
+			// which one feeds field.Mask? the result variable later assigned to a selector named Mask
+			res := identObj(info, as.Lhs[0])
+			isMask := false
+			ast.Inspect(nb.Decl.Body, func(m ast.Node) bool {
+				if a2, ok := m.(*ast.AssignStmt); ok && len(a2.Lhs) == 1 && len(a2.Rhs) == 1 {
+					if se, ok := unparen(a2.Lhs[0]).(*ast.SelectorExpr); ok && se.Sel.Name == "Mask" && identObj(info, a2.Rhs[0]) == res && res != nil {
+						isMask = true
+					}
+				}
+				return true
+			})
+			if se, ok := unparen(as.Lhs[0]).(*ast.SelectorExpr); ok && se.Sel.Name == "Mask" {
+				isMask = true
+			}
+			if isMask {
+				maskObj = o
+			} else {
+				valueObj = o
+			}
+			return true
+		})
+		if maskObj == nil || valueObj == nil {
+			r.Fail(VUndecided, "maskcheck", nb.Key, "", npos, "cannot identify the big integers that become the field's value and mask")
+		} else {
+			// accepted idioms: t := And(value, mask); value.Cmp(t) != 0 → error   |   AndNot(value, mask).Sign()/BitLen() != 0 → error
+			found := false
+			ast.Inspect(nb.Decl.Body, func(n ast.Node) bool {
+				is, ok := n.(*ast.IfStmt)
+				if !ok {
+					return true
+				}
+				retErr := false
+				for _, bs := range is.Body.List {
+					if rs, ok := bs.(*ast.ReturnStmt); ok && len(rs.Results) == 2 {
+						if id, ok := unparen(rs.Results[0]).(*ast.Ident); ok && id.Name == "nil" {
+							if id2, ok2 := unparen(rs.Results[1]).(*ast.Ident); !ok2 || id2.Name != "nil" {
+								retErr = true
+							}
+						}
+					}
+				}
+				be, ok := unparen(is.Cond).(*ast.BinaryExpr)
+				if !retErr || !ok || be.Op != token.NEQ {
+					return true
+				}
+				if v, isC := constIntOf(info, be.Y); !isC || v != 0 {
+					return true
+				}
+				call, ok := unparen(be.X).(*ast.CallExpr)
+				if !ok {
+					return true
+				}
+				se, ok := unparen(call.Fun).(*ast.SelectorExpr)
+				if !ok {
+					return true
+				}
+				// bigAnd(e): e is (or is a variable assigned from) X.And(value, mask) / X.AndNot(value, mask)
+				var bigOp func(e ast.Expr, op string) bool
+				bigOp = func(e ast.Expr, op string) bool {
+					if o := identObj(info, e); o != nil {
+						ok2 := false
+						ast.Inspect(nb.Decl.Body, func(m ast.Node) bool {
+							if a2, ok := m.(*ast.AssignStmt); ok && len(a2.Lhs) == 1 && len(a2.Rhs) == 1 && identObj(info, a2.Lhs[0]) == o && a2.Pos() < is.Pos() {
+								if bigOp(a2.Rhs[0], op) {
+									ok2 = true
+								}
+							}
+							return true
+						})
+						return ok2
+					}
+					c2, ok := unparen(e).(*ast.CallExpr)
+					if !ok || len(c2.Args) != 2 {
+						return false
+					}
+					s2, ok := unparen(c2.Fun).(*ast.SelectorExpr)
+					if !ok || s2.Sel.Name != op {
+						return false
+					}
+					a0, a1 := identObj(info, c2.Args[0]), identObj(info, c2.Args[1])
+					if op == "And" {
+						return (a0 == valueObj && a1 == maskObj) || (a0 == maskObj && a1 == valueObj)
+					}
+					return a0 == valueObj && a1 == maskObj
+				}
+				switch se.Sel.Name {
+				case "Cmp":
+					if len(call.Args) == 1 && ((identObj(info, se.X) == valueObj && bigOp(call.Args[0], "And")) || (identObj(info, call.Args[0]) == valueObj && bigOp(se.X, "And"))) {
+						found = true
+					}
+				case "Sign", "BitLen":
+					if bigOp(se.X, "AndNot") {
+						found = true
+					}
+				}
+				return true
+			})
+			if found {
+				r.OK("maskcheck", nb.Key, "", npos, "value is compared with value AND mask (or value AND-NOT mask with zero) and a difference returns an error", true)
+			} else {
+				r.Fail(VViolation, "maskcheck", nb.Key, "", npos, "no test that the value has no bit outside the mask (value.Cmp(And(value, mask)) != 0 → error, or the AndNot form) guards the field: a value with stray bits is accepted silently")
 			}
 		}
 	}
